@@ -5,17 +5,63 @@ use crate::c09::*;
 
 /// Test generated for harness `c09::c09_steps_trustiter_adaptors_n2` 
 ///
+/// Check for `assertion`: ""vpartition: the hint drops by exactly one with every yielded item""
+
+#[test]
+fn kani_concrete_playback_c09_steps_trustiter_adaptors_n2_15109782324068612378() {
+    let concrete_vals: Vec<Vec<u8>> = vec![
+        // 10
+        vec![10],
+        // 0
+        vec![0, 0, 0, 0],
+        // 0
+        vec![0, 0, 0, 0],
+        // 0
+        vec![0],
+        // 0
+        vec![0],
+        // 0
+        vec![0, 0, 0, 0],
+    ];
+    kani::concrete_playback_run(concrete_vals, c09_steps_trustiter_adaptors_n2);
+}
+
+/// Test generated for harness `c09::c09_steps_trustiter_adaptors_n2` 
+///
 /// Check for `assertion`: ""vpct_change: the hint drops by exactly one with every yielded item""
 
 #[test]
-fn kani_concrete_playback_c09_steps_trustiter_adaptors_n2_8149101903074222595() {
+fn kani_concrete_playback_c09_steps_trustiter_adaptors_n2_13808442949950178511() {
     let concrete_vals: Vec<Vec<u8>> = vec![
         // 9
         vec![9],
-        // -64
-        vec![192, 255, 255, 255],
-        // -63
-        vec![193, 255, 255, 255],
+        // 0
+        vec![0, 0, 0, 0],
+        // 0
+        vec![0, 0, 0, 0],
+        // 0
+        vec![0],
+        // 0
+        vec![0],
+        // 0
+        vec![0, 0, 0, 0],
+    ];
+    kani::concrete_playback_run(concrete_vals, c09_steps_trustiter_adaptors_n2);
+}
+
+/// Test generated for harness `c09::c09_steps_trustiter_adaptors_n2` 
+///
+/// Check for `assertion`: ""rolling_custom_iter: the hint drops by exactly one with every yielded item""
+
+#[test]
+fn kani_concrete_playback_c09_steps_trustiter_adaptors_n2_709393478366823917() {
+    let concrete_vals: Vec<Vec<u8>> = vec![
+        // 16
+        vec![16],
+        // 0
+        vec![0, 0, 0, 0],
+        // 0
+        vec![0, 0, 0, 0],
         // 0
         vec![0],
         // 0
@@ -54,37 +100,14 @@ fn kani_concrete_playback_c09_steps_trustiter_adaptors_n2_12826052818449495357()
 /// Check for `assertion`: ""vdiff: the hint drops by exactly one with every yielded item""
 
 #[test]
-fn kani_concrete_playback_c09_steps_trustiter_adaptors_n2_11160704962322642651() {
+fn kani_concrete_playback_c09_steps_trustiter_adaptors_n2_17406882732040384105() {
     let concrete_vals: Vec<Vec<u8>> = vec![
         // 6
         vec![6],
-        // -64
-        vec![192, 255, 255, 255],
-        // -64
-        vec![192, 255, 255, 255],
-        // 0
-        vec![0],
-        // 0
-        vec![0],
         // 0
         vec![0, 0, 0, 0],
-    ];
-    kani::concrete_playback_run(concrete_vals, c09_steps_trustiter_adaptors_n2);
-}
-
-/// Test generated for harness `c09::c09_steps_trustiter_adaptors_n2` 
-///
-/// Check for `assertion`: ""vshift: the hint drops by exactly one with every yielded item""
-
-#[test]
-fn kani_concrete_playback_c09_steps_trustiter_adaptors_n2_361493506897806217() {
-    let concrete_vals: Vec<Vec<u8>> = vec![
-        // 2
-        vec![2],
-        // -64
-        vec![192, 255, 255, 255],
-        // -63
-        vec![193, 255, 255, 255],
+        // 0
+        vec![0, 0, 0, 0],
         // 0
         vec![0],
         // 0
@@ -100,33 +123,10 @@ fn kani_concrete_playback_c09_steps_trustiter_adaptors_n2_361493506897806217() {
 /// Check for `assertion`: ""shift: the hint drops by exactly one with every yielded item""
 
 #[test]
-fn kani_concrete_playback_c09_steps_trustiter_adaptors_n2_3037968527053036777() {
+fn kani_concrete_playback_c09_steps_trustiter_adaptors_n2_2715252895303535857() {
     let concrete_vals: Vec<Vec<u8>> = vec![
-        // 1
-        vec![1],
-        // 0
-        vec![0, 0, 0, 0],
-        // 0
-        vec![0, 0, 0, 0],
         // 0
         vec![0],
-        // 0
-        vec![0],
-        // 0
-        vec![0, 0, 0, 0],
-    ];
-    kani::concrete_playback_run(concrete_vals, c09_steps_trustiter_adaptors_n2);
-}
-
-/// Test generated for harness `c09::c09_steps_trustiter_adaptors_n2` 
-///
-/// Check for `assertion`: ""rolling_custom_iter: the hint drops by exactly one with every yielded item""
-
-#[test]
-fn kani_concrete_playback_c09_steps_trustiter_adaptors_n2_9552277715860057141() {
-    let concrete_vals: Vec<Vec<u8>> = vec![
-        // 17
-        vec![17],
         // 0
         vec![0, 0, 0, 0],
         // 0
@@ -189,15 +189,15 @@ fn kani_concrete_playback_c09_steps_trustiter_adaptors_n2_15366390325661990635()
 
 /// Test generated for harness `c09::c09_steps_trustiter_adaptors_n2` 
 ///
-/// Check for `assertion`: ""vpartition: the hint drops by exactly one with every yielded item""
+/// Check for `assertion`: ""rolling_custom_iter: the hint drops by exactly one with every yielded item""
 
 #[test]
-fn kani_concrete_playback_c09_steps_trustiter_adaptors_n2_3926460234375517149() {
+fn kani_concrete_playback_c09_steps_trustiter_adaptors_n2_9552277715860057141() {
     let concrete_vals: Vec<Vec<u8>> = vec![
-        // 12
-        vec![12],
-        // 65
-        vec![65, 0, 0, 0],
+        // 17
+        vec![17],
+        // 0
+        vec![0, 0, 0, 0],
         // 0
         vec![0, 0, 0, 0],
         // 0
@@ -212,13 +212,13 @@ fn kani_concrete_playback_c09_steps_trustiter_adaptors_n2_3926460234375517149() 
 
 /// Test generated for harness `c09::c09_steps_trustiter_adaptors_n2` 
 ///
-/// Check for `assertion`: ""rolling_custom_iter: the hint drops by exactly one with every yielded item""
+/// Check for `assertion`: ""vshift: the hint drops by exactly one with every yielded item""
 
 #[test]
-fn kani_concrete_playback_c09_steps_trustiter_adaptors_n2_709393478366823917() {
+fn kani_concrete_playback_c09_steps_trustiter_adaptors_n2_2375332366993006541() {
     let concrete_vals: Vec<Vec<u8>> = vec![
-        // 16
-        vec![16],
+        // 2
+        vec![2],
         // 0
         vec![0, 0, 0, 0],
         // 0
